@@ -6,9 +6,9 @@ EXTENDS Electrolytes
 Tri(Ms, Es, Zs) == { <<m, e, z>> : m \in Ms, e \in Es, z \in Zs }
 Ch_q == { <<1, 0, 1>>, <<1, 0, -1>>, <<2, 0, -1>>, <<1, 0, 2>>, <<1, 0, -2>>, <<2, 0, 3>>,
           <<1, -12, 1>>, <<1, -12, -2>>, <<3, -6, -3>>, <<5, -3, 4>> }
-Ch_t == Tri({1, 2, 3}, {-12, -6, 0}, {-3, -2, -1, 1, 2, 4})
-Ch_w == Tri({0, 1, 5, 25, 999}, {-12, -9, -6, -3, -1, 0}, -4..4)
-Ch_s == Tri({1, 2}, {-12, 0}, {-3, -1, 1, 2})
+Ch_t == Tri({1, 2}, {-12, 0}, {-3, -2, -1, 1, 2, 4})
+Ch_w == Tri({0, 1, 999}, {-12, -6, 0}, -4..4)
+Ch_s == Tri({1, 2}, {0}, {-1, 1}) \cup {<<1, 0, 2>>, <<1, 0, -2>>, <<1, -12, 1>>, <<3, -6, -3>>}
 S_q == {3}
 S_t == {2, 10, 1000}
 NoChoices == {}
@@ -17,14 +17,18 @@ NoPoints == {}
 
 (* part 2 grids *)
 R(n, d) == Norm(<<n, d>>)
+(* every DH point record has the same fields (unused ones keep the defaults), so that points of  *)
+(* all kinds can live in one set                                                               *)
+PBase == [kind |-> "none", IS |-> QZero, I0 |-> QOne, z |-> QZero, A |-> QZero, B |-> QZero, a |-> QZero,
+          C |-> QZero, T |-> QZero, eps |-> QZero, rho |-> QZero, b0 |-> QOne, nus |-> <<>>, zs |-> <<>>, pm |-> <<>>]
 LimPts(Is, I0s, Zs, As) ==
-    { [kind |-> "lim", IS |-> i, I0 |-> i0, z |-> Q(z), A |-> a, B |-> QZero, a |-> QZero, C |-> QZero] :
+    { [PBase EXCEPT !.kind = "lim", !.IS = i, !.I0 = i0, !.z = Q(z), !.A = a] :
         i \in Is, i0 \in I0s, z \in Zs, a \in As }
 ExtPts(Is, I0s, Zs, As, Bs, Ss, Cs) ==
-    { [kind |-> "ext", IS |-> i, I0 |-> i0, z |-> Q(z), A |-> a, B |-> b, a |-> s, C |-> c] :
+    { [PBase EXCEPT !.kind = "ext", !.IS = i, !.I0 = i0, !.z = Q(z), !.A = a, !.B = b, !.a = s, !.C = c] :
         i \in Is, i0 \in I0s, z \in Zs, a \in As, b \in Bs, s \in Ss, c \in Cs }
 DavPts(Is, I0s, Zs, As, Cs) ==
-    { [kind |-> "dav", IS |-> i, I0 |-> i0, z |-> Q(z), A |-> a, B |-> QZero, a |-> QZero, C |-> c] :
+    { [PBase EXCEPT !.kind = "dav", !.IS = i, !.I0 = i0, !.z = Q(z), !.A = a, !.C = c] :
         i \in Is, i0 \in I0s, z \in Zs, a \in As, c \in Cs }
 
 (* perfect squares (exact branch) and non-squares (term branch) *)
@@ -46,7 +50,7 @@ I0_t == {R(1, 1), R(1, 4)}
 LawPts_q == LimPts(I_q, I0_q, Z_w, A_q) \cup ExtPts(I_q, I0_q, {-3, 1, 2}, A_q, B_q, Sz_q, Cx_q)
                 \cup DavPts(I_q, I0_q, {-2, 1, 4}, A_q, Cd_q)
 (* A / B over T 250..650 K, eps_r 5..100, rho 500..1500 kg/m3 *)
-ABPts(Ts, Es, Rs) == { [kind |-> k, T |-> t, eps |-> e, rho |-> r, b0 |-> QOne] :
+ABPts(Ts, Es, Rs) == { [PBase EXCEPT !.kind = k, !.T = t, !.eps = e, !.rho = r] :
                         k \in {"A", "B"}, t \in Ts, e \in Es, r \in Rs }
 T_q == {R(250, 1), R(5963, 20), R(650, 1)}
 T_t == {R(250, 1), R(5463, 20), R(5863, 20), R(5963, 20), R(350, 1), R(400, 1), R(500, 1), R(650, 1)}
@@ -62,9 +66,10 @@ Salts == { [nus |-> <<Q(1), Q(1)>>, zs |-> <<Q(1), Q(-1)>>, pm |-> <<400, 300>>]
            [nus |-> <<Q(1), Q(1), Q(-1)>>, zs |-> <<Q(1), Q(-2), Q(-1)>>, pm |-> <<900, 400, 450>>],
            [nus |-> <<Q(1), Q(4)>>, zs |-> <<Q(4), Q(-1)>>, pm |-> <<1100, 300>>] }
 ProdPts(Ks, Is, Ts, Es, Rs, Cs) ==
-    { [kind |-> k, IS |-> i, T |-> t, eps |-> e, rho |-> r, C |-> IF k = "dap" THEN R(-3, 10) ELSE c,
-       nus |-> s.nus, zs |-> s.zs, pm |-> s.pm] :
+    { [PBase EXCEPT !.kind = k, !.IS = i, !.T = t, !.eps = e, !.rho = r, !.C = IF k = "dap" THEN R(-3, 10) ELSE c,
+                    !.nus = s.nus, !.zs = s.zs, !.pm = s.pm] :
         k \in Ks, i \in Is, t \in Ts, e \in Es, r \in Rs, c \in Cs, s \in Salts }
 ProdPts_q == ProdPts({"lap", "eap", "dap"}, {R(0, 1), R(1, 100), R(1, 10)}, {R(5963, 20)}, {R(392, 5)},
                      {R(997, 1)}, {R(0, 1)})
+DHPts_q == LawPts_q \cup ABPts_q \cup ProdPts_q
 =============================================================================
